@@ -214,6 +214,8 @@ def run(ctx):
         if r["fail"]:
             cl, det = r["fail"]
             sig = f"C09.{cl}.{r['kind']}"
+            if r["kind"].split(":")[-1] == "l2d" and cl == "failed_ask_changed_state" and "QhullError" in det and "['pending']" in det:
+                sig = "C09.failed_ask_changed_state:l2d_qhull_error"
             if r["kind"].split(":")[-1] == "l2d" and cl in ("twin_state", "state_changed") and "['lossF']" in det:
                 sig = "C09.lossF:l2d_pending_set_order"
             failures.append({"clause": cl, "signature": sig, "detail": det,
